@@ -29,6 +29,8 @@ def run(tier, wd):
     rows = vc.run_cases(rep, wd, binpath, cases, abstracts, "c15")
     nontriv = 0
     for case, a, clean, dev, r in rows:
+        if r.get("skipped"):
+            continue
         if r.get("hang") or r.get("crash") or not r.get("ran"):
             rep.violation("%s: did not run: %s" % (vc.describe(case), {k: r.get(k) for k in ("err", "hang", "crash", "panic")}),
                           {"engine": "values", "case": case, "expected": clean["sbu"]})
